@@ -32,7 +32,7 @@ def prep(rng):
     return dict(code=rng.choice(CODES))
 
 
-PC_FAMILY = ('ldm', 'pop', 'ls', 'dp', 'adr', 'ldm_eret')
+PC_FAMILY = ('ldm', 'pop', 'ls', 'dp', 'adr', 'ldm_eret', 'rfe', 'subs_pc_lr', 'subs_pc_lr_thumb', 'eret')
 
 
 def pc_operand(row, rng):
@@ -45,6 +45,8 @@ def pc_operand(row, rng):
         return {'r': (lockstep_reglist(rng, len(f['r'])) | (1 << 15)) & ((1 << len(f['r'])) - 1)} if len(f['r']) == 16 else None
     if 'P' in f and len(f['P']) == 1 and name.startswith('pop'):
         return {'P': 1}
+    if row.sem and row.sem.split(':')[0] in ('rfe', 'subs_pc_lr', 'subs_pc_lr_thumb', 'eret'):
+        return {}                 # exception returns always write the PC (and the CPSR, which selects the set the target is aligned for)
     if row.sem and row.sem.startswith('ls') and 't' in f and len(f['t']) == 4:
         return {'t': 15}
     if row.sem and row.sem.startswith(('dp', 'adr')) and 'd' in f and len(f['d']) == 4:
